@@ -2,7 +2,7 @@
 From Coq Require Import List NArith ZArith Bool Arith String.
 Import ListNotations.
 Require Import Emit EmitLemmas.
-Require EmitSafe EmitChars EmitBreaks EmitFrame EmitIndent.
+Require EmitSafe EmitChars EmitBreaks EmitFrame EmitIndent EmitGrows EmitMarkers.
 
 (* KIND C15_options_normalised : U *)
 (* for EVERY requested canonical/allow_unicode/indent/width/line_break: the effective indent is the requested one iff it is between 2 and 9, else 2;
@@ -118,5 +118,25 @@ Example C15_line_break_example :
   [[124; 45]%N; [13; 10]%N; [32; 32]%N; [97%N]; [13; 10]%N; [32; 32]%N; [98%N]; [13; 10]%N; [45; 45; 45]%N; [32; 34]%N; [97%N]; [92; 114]%N; [92; 78]%N; [98%N]; [34%N]; [13; 10]%N].
 Proof. exact EmitBreaks.line_break_example. Qed.
 
-(* PARTIAL: markers_and_directives, result_type, output_rereadable_chars and canonical_parse are not proved on the
+(* KIND C15_version_directive_is_written : U *)
+(* version=(1, x): the document start writes the directive chunk `%YAML 1.x` (any other major version is an EmitterError) *)
+Theorem C15_version_directive_is_written : forall first explicit mi tags s,
+  cur_ev s = Some (EDocStart explicit (Some (1%N, mi)) tags) ->
+  match expect_document_start first s with
+  | Ok (_, s') => exists post pre, out s' = (post ++ ([37; 89; 65; 77; 76; 32]%N ++ dec 1 ++ [46%N] ++ dec mi) :: pre)%list /\ EmitGrows.extends (out s) pre
+  | _ => True end.
+Proof. exact EmitMarkers.version_directive_is_written. Qed.
+Eval vm_compute in "ASSUME:C15_version_directive_is_written"%string. Print Assumptions C15_version_directive_is_written.
+(* KIND C15_explicit_start_writes_the_marker : U *)
+(* explicit_start (and every document after the first, and every document with directives): the `---` marker is written *)
+Theorem C15_explicit_start_writes_the_marker : forall first explicit version tags s,
+  cur_ev s = Some (EDocStart explicit version tags) ->
+  (explicit = true \/ first = false \/ version <> None \/ tags <> []) ->
+  match expect_document_start first s with
+  | Ok (_, s') => exists post pre, out s' = (post ++ [45; 45; 45]%N :: pre)%list /\ EmitGrows.extends (out s) pre
+  | _ => True end.
+Proof. exact EmitMarkers.explicit_documents_get_their_marker. Qed.
+Eval vm_compute in "ASSUME:C15_explicit_start_writes_the_marker"%string. Print Assumptions C15_explicit_start_writes_the_marker.
+
+(* PARTIAL: the %TAG directive chunks and the absence of markers in implicit documents (markers_and_directives), result_type, output_rereadable_chars and canonical_parse are not proved on the
    emitter model; decided by the exact-text emitter correspondence and the direct text-level checker over the option product (both emitters). *)
